@@ -17,17 +17,17 @@ import (
 
 // Spec is the expectation a case hands to the runtime harness.
 type Spec struct {
-	Case     string               `json:"case"`
-	Seed     int64                `json:"seed"`
-	NValues  int                  `json:"nvalues"`
-	Monitors []string             `json:"monitors"` // value alias intact mutate concurrent
-	Conv     Flags                `json:"conv"`
-	Methods  []*MethodSpec        `json:"methods"`
-	Funcs    []*FuncSpec          `json:"funcs,omitempty"`
-	Enums    map[string]*EnumSpec `json:"enums,omitempty"`
-	EnumPairs []*EnumPair         `json:"enumPairs,omitempty"`
-	MaxDepth int                  `json:"maxDepth,omitempty"`
-	MaxFaults int                 `json:"maxFaults,omitempty"`
+	Case      string               `json:"case"`
+	Seed      int64                `json:"seed"`
+	NValues   int                  `json:"nvalues"`
+	Monitors  []string             `json:"monitors"` // value alias intact mutate concurrent
+	Conv      Flags                `json:"conv"`
+	Methods   []*MethodSpec        `json:"methods"`
+	Funcs     []*FuncSpec          `json:"funcs,omitempty"`
+	Enums     map[string]*EnumSpec `json:"enums,omitempty"`
+	EnumPairs []*EnumPair          `json:"enumPairs,omitempty"`
+	MaxDepth  int                  `json:"maxDepth,omitempty"`
+	MaxFaults int                  `json:"maxFaults,omitempty"`
 }
 
 func (s *Spec) has(m string) bool {
@@ -52,31 +52,31 @@ type Violation struct {
 
 // MethodEvent summarises what was observed for one method.
 type MethodEvent struct {
-	Ev          string      `json:"ev"`
-	Case        string      `json:"case"`
-	Method      string      `json:"method"`
-	Values      int         `json:"values"`
-	Judged      int         `json:"judged"`     // compared against the reference
-	NonTrivial  int         `json:"nontrivial"` // source had >=1 non-nil container
-	Abstained   int         `json:"abstained"`
-	AbstainWhy  string      `json:"abstain_why,omitempty"`
-	Panics      int         `json:"panics"`
-	AliasChecks int         `json:"alias_checks"`
-	SharedOK    int         `json:"shared_ok"` // values where allowed sharing was observed
-	ConcCalls   int         `json:"conc_calls"`
-	Errors      int         `json:"errors"`
-	Violations  []Violation `json:"violations,omitempty"`
-	NViol       int         `json:"nviol"`
-	SampleSrc   string      `json:"sample_src,omitempty"`
-	SampleRes   string      `json:"sample_res,omitempty"`
-	SrcType     string      `json:"src_type"`
-	TgtType     string      `json:"tgt_type"`
-	Digests     int         `json:"distinct_sources"`
-	ExpectedPanics int      `json:"expected_panics"`
-	ExpectedErrors int      `json:"expected_errors"`
-	FaultRuns   int         `json:"fault_runs"`   // executions under a non-empty fault plan
-	FaultSites  int         `json:"fault_sites"`  // distinct fallible call sites enumerated
-	PathChecks  int         `json:"path_checks"`  // error paths compared with the expected location
+	Ev             string      `json:"ev"`
+	Case           string      `json:"case"`
+	Method         string      `json:"method"`
+	Values         int         `json:"values"`
+	Judged         int         `json:"judged"`     // compared against the reference
+	NonTrivial     int         `json:"nontrivial"` // source had >=1 non-nil container
+	Abstained      int         `json:"abstained"`
+	AbstainWhy     string      `json:"abstain_why,omitempty"`
+	Panics         int         `json:"panics"`
+	AliasChecks    int         `json:"alias_checks"`
+	SharedOK       int         `json:"shared_ok"` // values where allowed sharing was observed
+	ConcCalls      int         `json:"conc_calls"`
+	Errors         int         `json:"errors"`
+	Violations     []Violation `json:"violations,omitempty"`
+	NViol          int         `json:"nviol"`
+	SampleSrc      string      `json:"sample_src,omitempty"`
+	SampleRes      string      `json:"sample_res,omitempty"`
+	SrcType        string      `json:"src_type"`
+	TgtType        string      `json:"tgt_type"`
+	Digests        int         `json:"distinct_sources"`
+	ExpectedPanics int         `json:"expected_panics"`
+	ExpectedErrors int         `json:"expected_errors"`
+	FaultRuns      int         `json:"fault_runs"`  // executions under a non-empty fault plan
+	FaultSites     int         `json:"fault_sites"` // distinct fallible call sites enumerated
+	PathChecks     int         `json:"path_checks"` // error paths compared with the expected location
 }
 
 // Out is the JSONL event sink of a batch binary.
